@@ -271,7 +271,13 @@ func runC17(t *testing.T, sched simrt.Schedule, prog c17Prog) ([]Violation, RunS
 						reach++
 					}
 				}
-				long := time.Duration(stp.Ms)*time.Millisecond >= time.Duration(prog.FailAfter+3)*(hbMax+2*simRPC.maxDelay)
+				// calls started in the previous step still carry that step's delays (up to three per call): the leader's
+				// health-check round may be stuck in one of them when this step begins
+				var carried time.Duration
+				if si > 0 {
+					carried = 3 * time.Duration(prog.Steps[si-1].MaxDelay) * time.Millisecond
+				}
+				long := time.Duration(stp.Ms)*time.Millisecond >= carried+time.Duration(prog.FailAfter+3)*(hbMax+2*simRPC.maxDelay)
 				if reach*2 <= prog.N && long {
 					simrt.Probe("c17.minority_leader_judged")
 					if !leader.isPartitioned() {
